@@ -61,7 +61,7 @@ static std::vector<std::string> g_inputs;
 static void build_inputs(int len){ g_inputs.clear(); all_strings("/ab1xy",len,[&](const std::string &s){ g_inputs.push_back(s); }); const char *w[]={"/a","/a/","/ab","/abc","/12","/x/y","/y","/ab/12","/a/b/c","/a/x"}; for(int i=0;i<10;i++){ std::string s=w[i]; g_inputs.push_back(s+"\n"); g_inputs.push_back("\n"+s); g_inputs.push_back(s+"/"+s); g_inputs.push_back("x"+s); g_inputs.push_back(s+" "); g_inputs.push_back(s.substr(0,s.size()-1)); g_inputs.push_back(s+std::string(1,'\0')+"z"); } }
 
 static void dispatcher_pass(cppcms::service &srv,int sh,int n,int maxlist){ std::vector<Entry> E=entries(); std::vector<Pat> P; for(size_t i=0;i<E.size();i++) P.push_back(Pat(E[i].pat));
-	const char *methods[]={"GET","POST","HEAD","get",""}; std::string outs[5]; booster::shared_ptr<cppcms::http::context> ctx[5]; for(int m=0;m<5;m++) ctx[m]=make_ctx(srv,methods[m],outs[m]);
+	/* methods incl. proper extensions / prefixes / other case of the registered ones: a filter must match the WHOLE method */ const char *methods[]={"GET","POST","HEAD","get","","GETX","GE","XGET","POSTS","GET|HEAD","HEADGET"}; const int NM=11; std::string outs[NM]; booster::shared_ptr<cppcms::http::context> ctx[NM]; for(int m=0;m<NM;m++) ctx[m]=make_ctx(srv,methods[m],outs[m]);
 	uint64_t cfgidx=0; std::vector<int> list; std::vector<int> filt;
 	std::function<void()> run_cfg=[&](){ if((cfgidx++%n)!=(uint64_t)sh) return;
 		// two registration styles: assign() (no method filter; works without context) and map() (filters; needs context)
@@ -73,7 +73,7 @@ static void dispatcher_pass(cppcms::service &srv,int sh,int n,int maxlist){ std:
 				else { std::string me=FILTERS[f];
 					#define MAPX(S) do{ if(e.arity==0){ if(f) app.dispatcher().map(me,e.pat,&DispApp::S##_0,&app); else app.dispatcher().map(e.pat,&DispApp::S##_0,&app); } else if(e.arity==1){ if(f) app.dispatcher().map(me,e.pat,&DispApp::S##_1,&app,e.g1); else app.dispatcher().map(e.pat,&DispApp::S##_1,&app,e.g1); } else { if(f) app.dispatcher().map(me,e.pat,&DispApp::S##_2,&app,e.g1,e.g2); else app.dispatcher().map(e.pat,&DispApp::S##_2,&app,e.g1,e.g2); } }while(0)
 					if(i==0) MAPX(s0); else if(i==1) MAPX(s1); else MAPX(s2); } }
-			for(int mi=(style?0:-1);mi<(style?5:1);mi++){ const char *method= mi<0?0:methods[mi]; if(mi>=0) app.assign_context(ctx[mi]);
+			for(int mi=(style?0:-1);mi<(style?NM:1);mi++){ const char *method= mi<0?0:methods[mi]; if(mi>=0) app.assign_context(ctx[mi]);
 				for(size_t k=0;k<g_inputs.size();k++){ const std::string &in=g_inputs[k]; if(in.find('\0')!=std::string::npos&&false) continue; vf::eval(); g_log.clear(); bool r=app.dispatcher().dispatch(in);
 					// reference
 					std::string want; bool wr=false; std::string cin=in.c_str(); // the dispatcher matches the C string (bytes up to the first NUL)
@@ -154,7 +154,7 @@ static void tree_pass(cppcms::service &srv,int sh,int n){ // shapes: 0: root onl
 }
 
 int main(int argc,char **argv){ vf::init(argc,argv,"C20","exploration"); int n=16; bool th=vf::thorough(); build_inputs(th?5:4);
-	vf::C().rule=std::string("A: every ordered list of 1..")+(th?"3":"2")+" handlers from 14 (pattern, group selection) variants, registered with assign() and with map() under method filters {none,GET,POST,(GET|HEAD)}, x every path of length <= "+(th?"5":"4")+" over {/ a b 1 x y} plus 70 edited witnesses (trailing newline, embedded NUL, prefix, suffix) x methods {GET,POST,HEAD,get,'',no context}; B: 12 mount points x 4 hosts x 6 script names x 8 paths, and every ordered pair (thorough: triple) of them mounted in an applications_pool; C: 5 application-tree shapes x 2 mount styles: every (from,to) application pair x {absolute, relative, ./relative} key forms x keys {page,item,loc,loc;lang,default} x parameter tuples, and every path of length <= "+(th?"6":"5")+" over {/ 1 a s} plus 1728 segment triples routed through the tree. Oracle: reference router over an own backtracking full-matcher. distinct = (configuration, input, handler+arguments)";
+	vf::C().rule=std::string("A: every ordered list of 1..")+(th?"3":"2")+" handlers from 14 (pattern, group selection) variants, registered with assign() and with map() under method filters {none,GET,POST,(GET|HEAD)}, x every path of length <= "+(th?"5":"4")+" over {/ a b 1 x y} plus 70 edited witnesses (trailing newline, embedded NUL, prefix, suffix) x methods {GET,POST,HEAD,get,'',GETX,GE,XGET,POSTS,GET|HEAD,HEADGET,no context}; B: 12 mount points x 4 hosts x 6 script names x 8 paths, and every ordered pair (thorough: triple) of them mounted in an applications_pool; C: 5 application-tree shapes x 2 mount styles: every (from,to) application pair x {absolute, relative, ./relative} key forms x keys {page,item,loc,loc;lang,default} x parameter tuples, and every path of length <= "+(th?"6":"5")+" over {/ 1 a s} plus 1728 segment triples routed through the tree. Oracle: reference router over an own backtracking full-matcher. distinct = (configuration, input, handler+arguments)";
 	vf::assume("reference matcher implements literals, ., \\d, \\w, groups, |, ?, *, + with Perl backtracking order; patterns are chosen so captures are unambiguous");
 	vf::assume("relative order between the legacy asynchronous mount list and the main list is not checked");
 	if(!vf::C().replay_file.empty()) printf("replay: C20 cases are deterministic functions of the configuration; re-running quick tier cases\n");
